@@ -111,6 +111,37 @@ theorem C03_resolve_partial (c : Cat) (ss : Session) (op : TOp) (d s s' n : Name
   · simp only [exec, h1']; rfl
   · simp [exec, duckResolve]
 
+/-- **Resolution in two-table statements** (INSERT…SELECT, CTAS, CLONE, UPDATE…FROM, DELETE…USING, MERGE): a
+    schema-qualified target or source denotes the object of that schema in the connection's current database — not a
+    same-named object of the current schema — for every statement kind (no fall-back envelope: only one-part names can
+    fall back to `main`). -/
+theorem C03_resolve_two (c : Cat) (ss : Session) (op : COp) (d s s' n : Name) (r : TRef) (hc : ss.coherent c = true)
+    (hctx : ss.abs = ⟨some d, some s⟩) :
+    exec c ss (.two op (.q2 s' n) r) = exec c ss (.two op (.q3 d s' n) r) ∧
+    exec c ss (.two op r (.q2 s' n)) = exec c ss (.two op r (.q3 d s' n)) := by
+  rcases coherent_cases hc with rfl | ⟨d0, rfl, _⟩ | ⟨d0, sc, rfl, _⟩ <;> simp [Session.abs] at hctx
+  obtain ⟨rfl, rfl⟩ := hctx
+  constructor <;> simp [exec, duckResolve]
+
+/-- schemas 21 and 22 of database 11 both have a table 31; the source table 32 lives in 21; one connection in 11.21 -/
+def wM : World :=
+  { cat := { dbs := [memoryDb, 11], schemas := [(11, 21), (11, 22)],
+             objs := [⟨11, 21, 31, .table, [1]⟩, ⟨11, 22, 31, .table, [1]⟩, ⟨11, 21, 32, .table, [1, 7]⟩] },
+    sessions := [⟨some 11, some 21, true, true, (11, 21)⟩] }
+
+/-- the history of the seeded change C03/r2m1 on the model: `MERGE INTO s2.t …` issued from schema S1 (which has its own
+    table T) inserts into DB.S2.T and leaves DB.S1.T alone -/
+theorem C03_merge_target_outside_current_schema :
+    wM.coherent = true ∧ region wM 0 (.two .merge (.q2 22 31) (.q1 32)) = none ∧
+    (Impl.step wM 0 (.two .merge (.q2 22 31) (.q1 32))).1 = .ok ∧
+    ((Impl.step wM 0 (.two .merge (.q2 22 31) (.q1 32))).2.cat.find 11 22 31).map (·.rows) = some [1, 7] ∧
+    ((Impl.step wM 0 (.two .merge (.q2 22 31) (.q1 32))).2.cat.find 11 21 31).map (·.rows) = some [1] := by decide
+
+/-- MERGE with a qualified source cannot be built by fakesnow at all (sqlglot ParseError; C12's finding) -/
+theorem finding_merge_qualified_source :
+    region w1 0 (.two .merge (.q1 31) (.q2 21 31)) = some .mergeQualifiedSource ∧
+    (Impl.step w1 0 (.two .merge (.q1 31) (.q2 21 31))).1 = .err .raw := by decide
+
 /-- **Reports**: on a coherent connection with a current schema, `conn.database`/`conn.schema` (the reported
     context) and `SELECT CURRENT_DATABASE(), CURRENT_SCHEMA()` name the same database and schema, and that schema
     exists in the shared catalog. -/
@@ -119,22 +150,23 @@ theorem C03_reports (w : World) (i : Nat) (ss : Session) (hi : w.sessions[i]? = 
     (Impl.step w i .selectCtx).1 = .ctx ss.abs.db ss.abs.schema ∧
     ∃ d s, ss.abs = ⟨some d, some s⟩ ∧ ss.database = some d ∧ ss.schema = some s ∧ w.cat.hasSchema d s = true := by
   rcases coherent_cases hc with rfl | ⟨d0, rfl, _⟩ | ⟨d0, sc, rfl, h⟩ <;> simp at hs
-  refine ⟨by simp [Impl.step, hi, Session.guard, Stmt.needs, exec, Session.abs], d0, sc, ?_⟩
+  refine ⟨by simp [Impl.step, hi, Session.guard, Stmt.needs, Stmt.rawFails, exec, Session.abs], d0, sc, ?_⟩
   simp [Session.abs, h]
 
 /-- **90105 / 90106 change nothing** (no envelope: every world, coherent or not): a statement whose first table
     reference lacks a database (schema) on a connection without a current database (schema) fails with that error
     and the world — catalog and every connection — is unchanged. -/
-theorem C03_need_ctx (w : World) (i : Nat) (st : Stmt) (ss : Session) (hi : w.sessions[i]? = some ss) :
+theorem C03_need_ctx (w : World) (i : Nat) (st : Stmt) (ss : Session) (hi : w.sessions[i]? = some ss)
+    (hraw : st.rawFails = false) :
     (st.needs.1 = true → ss.databaseSet = false → Impl.step w i st = (.err .noDb, w)) ∧
     (st.needs.2 = true → (st.needs.1 = true → ss.databaseSet = true) → ss.schemaSet = false →
       Impl.step w i st = (.err .noSchema, w)) := by
   constructor
-  · intro h1 h2; simp [Impl.step, hi, Session.guard, h1, h2]
+  · intro h1 h2; simp [Impl.step, hi, Session.guard, h1, h2, hraw]
   · intro h1 h2 h3
     cases hn : st.needs.1
-    · simp [Impl.step, hi, Session.guard, h1, hn, h3]
-    · simp [Impl.step, hi, Session.guard, h1, hn, h2 hn, h3]
+    · simp [Impl.step, hi, Session.guard, h1, hn, h3, hraw]
+    · simp [Impl.step, hi, Session.guard, h1, hn, h2 hn, h3, hraw]
 
 /-- which statements need a context is the statement's qualification level, for every single-table statement -/
 theorem C03_needs_levels (op : TOp) (d s n : Name) :
@@ -153,9 +185,11 @@ theorem C03_local (w : World) (i j : Nat) (st : Stmt) (hij : j ≠ i) :
   | none => rfl
   | some ss =>
     simp only
-    cases ss.guard st.needs with
-    | some e => rfl
-    | none => simp [Ne.symm hij]
+    split
+    · rfl
+    · cases ss.guard st.needs with
+      | some e => rfl
+      | none => simp [Ne.symm hij]
 
 /-- …and in the specification another connection's context changes only when its current schema is dropped. -/
 theorem C03_local_spec (w : SWorld) (i j : Nat) (st : Stmt) (x xj : Ctx) (hi : w.ctxs[i]? = some x)
@@ -181,7 +215,7 @@ theorem C03_shared (w : World) (i j : Nat) (a b : Session) (hi : w.sessions[i]? 
     (op : TOp) (d s n : Name) :
     (Impl.step w i (.tab op (.q3 d s n))).1 = (Impl.step w j (.tab op (.q3 d s n))).1 ∧
     (Impl.step w i (.tab op (.q3 d s n))).2.cat = (Impl.step w j (.tab op (.q3 d s n))).2.cat := by
-  simp [Impl.step, hi, hj, Session.guard, Stmt.needs, TRef.needDb, TRef.needSchema, exec, duckResolve]
+  simp [Impl.step, hi, hj, Session.guard, Stmt.needs, Stmt.rawFails, TRef.needDb, TRef.needSchema, exec, duckResolve]
 
 /-! ## Findings: every region of `region` is a real deviation (witnesses on coherent worlds) -/
 
